@@ -19,6 +19,7 @@ import (
 	"sync/atomic"
 	"testing/synctest"
 	"time"
+	_ "time/tzdata" // the zone database is compiled in: time.Local is set to a zone with DST below
 
 	"example.com/scion-time/net/ntske"
 
@@ -191,7 +192,10 @@ func doOp(p *ntske.Provider, op opSpec) (o opObs) {
 // ---- sequential histories -----------------------------------------------
 
 // runHist: NewProvider at t0, then the ops that next() yields (nil: end).
-func runHist(t0 int64, next func(h *hist) *opSpec, extraTag string) {
+func runHist(t0 int64, next func(h *hist) *opSpec, extraTag string) { runHistKind("prov.hist", t0, next, extraTag) }
+
+// runHistKind: kind prov.hist, or prov.long (same shape, judged by the one-pass oracle).
+func runHistKind(kind string, t0 int64, next func(h *hist) *opSpec, extraTag string) {
 	var obs []opObs
 	h := &hist{tags: map[string]bool{}}
 	panicked := false
@@ -221,7 +225,13 @@ func runHist(t0 int64, next func(h *hist) *opSpec, extraTag string) {
 				fmt.Println("NOTE virtual time moved during a call")
 			}
 			h.now = op.t
-			h.note(o)
+			if kind == "prov.long" {
+				if !o.op.get {
+					h.lastCur = o.key
+				}
+			} else {
+				h.note(o)
+			}
 			obs = append(obs, o)
 		}
 	})
@@ -239,7 +249,11 @@ func runHist(t0 int64, next func(h *hist) *opSpec, extraTag string) {
 	if panicked {
 		outs = "-1"
 	}
-	w.Case("prov.hist", h.tagStr(extraTag), lib.V(lib.I(h.t0), lib.L(as...)), outs)
+	tags := h.tagStr(extraTag)
+	if kind == "prov.long" {
+		tags = extraTag
+	}
+	w.Case(kind, tags, lib.V(lib.I(h.t0), lib.L(as...)), outs)
 }
 
 // ---- concurrent histories ------------------------------------------------
@@ -280,10 +294,19 @@ func runConc(t0 int64, next func(h *hist) *group, extraTag string) {
 			start := make(chan struct{})
 			var wg sync.WaitGroup
 			var mu sync.Mutex
+			// the calls of one goroutine, in the order listed
+			byG := map[int][]int{}
+			var gs []int
 			for i := range g.ops {
 				g.ops[i].t = now
+				if _, ok := byG[g.ops[i].g]; !ok {
+					gs = append(gs, g.ops[i].g)
+				}
+				byG[g.ops[i].g] = append(byG[g.ops[i].g], i)
+			}
+			for _, gi := range gs {
 				wg.Add(1)
-				go func(i int) {
+				go func(idx []int) {
 					defer wg.Done()
 					defer func() {
 						if r := recover(); r != nil {
@@ -293,13 +316,26 @@ func runConc(t0 int64, next func(h *hist) *group, extraTag string) {
 						}
 					}()
 					<-start
-					o := doOp(p, g.ops[i])
-					o.seq = seq.Add(1)
-					if time.Now().UnixNano() != now {
-						fmt.Println("NOTE virtual time moved during a call")
+					mine := int64(-7) // id of the key my own last Current returned
+					for _, i := range idx {
+						op := g.ops[i]
+						if op.get && op.id == -7 {
+							if mine == -7 {
+								mine = h.lastCur.id
+							}
+							op.id = mine
+						}
+						o := doOp(p, op)
+						o.seq = seq.Add(1)
+						if !op.get {
+							mine = o.key.id
+						}
+						if time.Now().UnixNano() != now {
+							fmt.Println("NOTE virtual time moved during a call")
+						}
+						res[i] = o
 					}
-					res[i] = o
-				}(i)
+				}(byG[gi])
 			}
 			close(start)
 			wg.Wait()
@@ -546,20 +582,78 @@ func (g *gen) nextGroup(h *hist) *group {
 	}
 	gr := &group{t: t}
 	for i := 0; i < n; i++ {
-		var o opSpec
-		switch {
-		case i == 0 && op != nil:
-			o = *op
-		case r.Intn(5) == 0:
-			// the key that a rotation at this very instant would create
-			o = opSpec{get: true, id: h.lastCur.id + 1}
-		default:
-			o = g.chooseOp(h)
+		calls := 1
+		if r.Intn(2) == 0 {
+			calls = 2 + r.Intn(4)
 		}
-		o.g = perm[i]
-		gr.ops = append(gr.ops, o)
+		for c := 0; c < calls; c++ {
+			var o opSpec
+			switch {
+			case i == 0 && c == 0 && op != nil:
+				o = *op
+			case r.Intn(5) == 0:
+				// the key that a rotation at this very instant would create
+				o = opSpec{get: true, id: h.lastCur.id + 1}
+			case c > 0 && r.Intn(3) == 0:
+				// the key my own Current just returned (or the newest known one)
+				o = opSpec{get: true, id: -7}
+			default:
+				o = g.chooseOp(h)
+			}
+			o.g = perm[i]
+			gr.ops = append(gr.ops, o)
+		}
+	}
+	if r.Intn(2) == 0 { // interleave the listing (only the order within one goroutine means anything)
+		for i := len(gr.ops) - 1; i > 0; i-- {
+			j := r.Intn(i + 1)
+			if gr.ops[i].g != gr.ops[j].g {
+				gr.ops[i], gr.ops[j] = gr.ops[j], gr.ops[i]
+			}
+		}
 	}
 	return gr
+}
+
+// ---- very long histories: more rotations than a 16-bit id can count --------
+
+// longHist: n Current calls, the i-th step(i) after the previous one (every step
+// > 24 h, so every call rotates); around the 2^16-th key and every 1000 calls a burst
+// of Gets: the newest ids, the ids 2^16 below them, the ids a 16-bit counter would alias.
+func longHist(t0 int64, n int, step func(i int) int64, tag string) {
+	i := 0
+	t := t0
+	var pend []opSpec
+	next := func(h *hist) *opSpec {
+		if len(pend) > 0 {
+			o := pend[0]
+			pend = pend[1:]
+			return &o
+		}
+		if i >= n {
+			return nil
+		}
+		if i > 0 {
+			c := h.lastCur.id
+			near := i+1 >= 65530 && i+1 <= 65545
+			if near || i%1000 == 0 {
+				ids := []int64{c, c - 1, c - 2, c - 3}
+				if near {
+					ids = append(ids, c-65536, c&0xFFFF, (c-1)&0xFFFF, 65535, 65536, 65537, 0, 1, c+65536)
+				}
+				for _, id := range ids {
+					pend = append(pend, opSpec{get: true, t: t, id: id})
+				}
+			}
+		}
+		i++
+		t += step(i)
+		pend = append(pend, opSpec{t: t})
+		o := pend[0]
+		pend = pend[1:]
+		return &o
+	}
+	runHistKind("prov.long", t0, next, "nt,long,"+tag)
 }
 
 // ---- IsValidAt -------------------------------------------------------------
@@ -616,6 +710,13 @@ func genValid(r *lib.Rng) {
 }
 
 // ---- main ---------------------------------------------------------------
+
+// dstNear: a start up to five days before one of the two changes of daylight saving
+// time in Zurich in 2000 (26 March 01:00 UTC, 29 October 01:00 UTC).
+func dstNear(r *lib.Rng) int64 {
+	d := lib.Pick(r, time.Date(2000, 3, 26, 1, 0, 0, 0, time.UTC), time.Date(2000, 10, 29, 1, 0, 0, 0, time.UTC)).UnixNano()
+	return d - r.Range(0, 5*day) + lib.Pick(r, int64(0), 1, -1, r.Range(-hour, hour))
+}
 
 func fixedScript(ops []opSpec) func(h *hist) *opSpec {
 	i := 0
@@ -697,6 +798,13 @@ func (s *scripted) next(h *hist) *opSpec {
 func main() {
 	a := lib.ParseArgs()
 	rand.Reader = theTape
+	// the provider must not depend on the local zone: run everything in one with
+	// daylight saving (an AddDate-style computation would give 71 h / 73 h days)
+	if loc, err := time.LoadLocation("Europe/Zurich"); err == nil {
+		time.Local = loc
+	} else {
+		fmt.Println("NOTE no zone database:", err)
+	}
 	w = lib.NewWriter(a.Out)
 	defer w.Close()
 	if a.Replay != "" {
@@ -710,6 +818,17 @@ func main() {
 	}
 	lockCheck()
 	corpus()
+	longHist(epoch2000, 65600, func(int) int64 { return renewal + 1 }, "wrap16")
+	if a.Tier == "thorough" {
+		rl := r.Fork()
+		longHist(epoch2000+r.Range(0, 400*day), 66000, func(int) int64 { return renewal + 1 + rl.Range(0, 16*hour) }, "wrap16")
+		longHist(epoch2000+999999999, 70000, func(i int) int64 {
+			if i%7 == 0 {
+				return validity + 1 // every key expired
+			}
+			return renewal + lib.Pick(rl, int64(1), 2, 1000, hour)
+		}, "wrap16")
+	}
 	for i := 0; i < nh; i++ {
 		g := &gen{r: r, style: r.Intn(5)}
 		switch r.Intn(10) {
@@ -721,16 +840,22 @@ func main() {
 			g.left = 6 + r.Intn(40)
 		}
 		t0 := epoch2000
-		if r.Intn(3) == 0 {
+		switch r.Intn(6) {
+		case 0, 1:
 			t0 += lib.Pick(r, int64(1), 999999999, r.Range(0, 400*day))
+		case 2:
+			t0 = dstNear(r)
 		}
 		runHist(t0, g.nextFixed, "")
 	}
 	for i := 0; i < nc; i++ {
 		g := &gen{r: r, style: r.Intn(5), left: 3 + r.Intn(25)}
 		t0 := epoch2000
-		if r.Intn(3) == 0 {
+		switch r.Intn(6) {
+		case 0, 1:
 			t0 += r.Range(0, 400*day)
+		case 2:
+			t0 = dstNear(r)
 		}
 		runConc(t0, g.nextGroup, "")
 	}
